@@ -14,6 +14,8 @@ CONSTANTS Kind, Keys, M, MaxVer, KLen, GenDepth
 VARIABLES ver, live, hist, rnd, tick
 vars == <<ver, live, hist, rnd, tick>>
 
+(* key universe of the iset histories: members around the 128-wide node boundaries, negative and far apart (cfg: Keys <- ISetKeysGen) *)
+ISetKeysGen == {-300, -129, -128, -127, -1, 0, 1, 2, 63, 64, 126, 127, 128, 129, 255, 256, 400, 1000}
 IsSeqKind == Kind \in {"ralist", "queue", "deque", "seq"}
 Table == CASE Kind = "set" -> SetTable [] Kind = "bag" -> BagTable [] Kind = "map" -> MapTable [] Kind = "iset" -> ISetTable
            [] Kind = "ralist" -> RATable [] Kind = "queue" -> QTable [] Kind = "deque" -> DQTable [] Kind = "seq" -> SeqTable
@@ -61,12 +63,14 @@ KSeqs == UNION {[1..n -> Keys] : n \in 0..KLen}
 Xs == 0..5
 AllOps == {Peek(v) : v \in live} \cup
           UNION {SigOps(Table[i][1], Table[i][2], live, Keys, KSeqs, Xs) : i \in DOMAIN Table}
-Next == \/ \E i \in DOMAIN Table : \E o \in SigOps(Table[i][1], Table[i][2], live, Keys, KSeqs, Xs) :
-              /\ o = Norm(o, ver) /\ KindPre(o, ver)
-              /\ Apply(o) /\ UNCHANGED <<hist, rnd, tick>>
-        \/ \E v \in live : Apply(Peek(v)) /\ UNCHANGED <<hist, rnd, tick>>
+(* histories are explored while the store has fewer than MaxVer versions (and, for sequences, short contents) *)
+Expandable == Len(ver) < MaxVer /\ (IsSeqKind => \A i \in DOMAIN ver : Len(ver[i]) <= 3)
+Next == /\ Expandable
+        /\ \/ \E i \in DOMAIN Table : \E o \in SigOps(Table[i][1], Table[i][2], live, Keys, KSeqs, Xs) :
+                 /\ o = Norm(o, ver) /\ KindPre(o, ver)
+                 /\ Apply(o) /\ UNCHANGED <<hist, rnd, tick>>
+           \/ \E v \in live : Apply(Peek(v)) /\ UNCHANGED <<hist, rnd, tick>>
 Spec == Init /\ [][Next]_vars
-Bounded == Len(ver) <= MaxVer
 TypeInv == \A i \in DOMAIN ver : TypeOK(ver[i])
 LawInv == Laws(ver, live)
 CanonInv == \A i \in DOMAIN ver : WF(Canon(ver[i])) /\ From(Canon(ver[i])) = ver[i]
